@@ -564,6 +564,42 @@ def gen_c12_listmerge_case(rng, cache_size=None, template=None):
     return {"cfg": cfg, "init": init, "pdatas": [{}], "steps": steps, "_meta": {"style": "listmerge"}}
 
 
+def gen_c12_repeat_case(rng, cache_size=None, template=None):
+    """a file that is ALREADY applied is applied again later (or stops being repeated), all file texts unchanged, and
+    another file overrides its keys in between: what changes is only how often and where the file is merged — through
+    an edit of top.yaml, through preceding data that make a second target match, or through the system id"""
+    cfg = gen_cfg(rng)
+    cfg["template"] = template
+    cfg["allow_empty_top"] = False
+    cfg["cache_size"] = cache_size if cache_size is not None else rng.choice([1, 2, 64])
+    def spec(items):
+        return {"blocks": [{"cond": None, "items": items}]}
+    files = {"a": spec([["k", "default"], ["d", {"u": 1}]]), "b": spec([["k", "site"], ["d", {"u": 2, "v": 3}]]),
+             "c": spec([["include", ["a"]]])}
+    again = rng.choice(["a", "a", "c"])
+    plain = [["*", ["a", "b"]]]
+    twice = [["*", ["a", "b"]], [rng.choice(["s1", "s*", "*"]), [again]]]
+    by_data = [["*", ["a", "b"]], ["@data_literal:role@web", [again]]]
+    pdatas = [{}, {"role": "web"}]
+    mode = rng.choice(["top", "top", "data", "id"])
+    if mode == "top":
+        init_top, steps = plain, [["get", "s1", 0], ["top", spec(twice)], ["get", "s1", 0], ["top", spec(plain)],
+                                  ["get", "s1", 0]]
+        if rng.random() < 0.5:
+            init_top, steps = twice, [["get", "s1", 0], ["top", spec(plain)], ["get", "s1", 0], ["top", spec(twice)],
+                                      ["get", "s1", 0]]
+    elif mode == "data":
+        init_top = by_data
+        steps = [["get", "s1", 0], ["get", "s1", 1], ["get", "s1", 0], ["get", "s1", 1]]
+    else:
+        init_top = [["*", ["a", "b"]], ["s1", [again]]]
+        steps = [["get", "s2", 0], ["get", "s1", 0], ["get", "s2", 0]]
+    for _ in range(rng.randrange(0, 3)):
+        steps.insert(rng.randrange(1, len(steps)), rng.choice([["get", "s2", 0], ["get", "s1", 1], ["get", "s1", 0]]))
+    init = {"top": spec(init_top), "files": files, "dirs": []}
+    return {"cfg": cfg, "init": init, "pdatas": pdatas, "steps": steps, "_meta": {"style": "repeat"}}
+
+
 def gen_lru_case(rng, size):
     alphabet = ["a", "b", "c", "d"][:rng.choice([2, 3, 4])]
     ops = []
